@@ -117,7 +117,6 @@ fn with_one(op: &Op, j: usize) -> Op {
     match op.clone() { Op::Taproot(i, t, _, a, l) => Op::Taproot(i, t, Pv::One(j), a, l), Op::Key(i, t, _) => Op::Key(i, t, Pv::One(j)), Op::ScriptSpend(i, t, _, h) => Op::ScriptSpend(i, t, Pv::One(j), h), o => o }
 }
 
-pub const F11_KEY: &str = "F11-acp-all-one-prevoutkind";
 
 pub fn eval(case: &str) -> Out {
     let w: Vec<&str> = case.split(' ').collect();
@@ -147,9 +146,9 @@ pub fn eval(case: &str) -> Out {
                     // (2) ANYONECANPAY: One(i, spent[i]) must give what All gives
                     Pv::All if schnorr_acp(t) && i < spent.len() && spent.len() == shadow.input.len() => {
                         let one = query(&mut SighashCache::new(&shadow), &with_one(op, i), &spent, genesis);
+                        // (this is where finding F11, repaired by 539d5ee, would return: ALL|ANYONECANPAY + One -> PrevoutKind)
                         if one != fresh {
-                            let key = if t == SchnorrSighashType::AllPlusAnyoneCanPay && one == "err:prevout_kind" { F11_KEY } else { "acp-one-differs" };
-                            fails.push(format!("{}|op {} ({}): Prevouts::One gives {}, Prevouts::All gives {}", key, k, show_op(op), one, fresh));
+                            fails.push(format!("acp-one-differs|op {} ({}): Prevouts::One gives {}, Prevouts::All gives {}", k, show_op(op), one, fresh));
                         }
                     }
                     // (3) not ANYONECANPAY: One must be reported as PrevoutKind
@@ -163,7 +162,7 @@ pub fn eval(case: &str) -> Out {
         }
         answers.push(live);
     }
-    let pred_fail = fails.iter().find(|f| !f.starts_with(F11_KEY)).or(fails.first()).cloned();
+    let pred_fail = fails.first().cloned();
     Out { result: answers.join(";"), pred_fail }
 }
 
